@@ -389,6 +389,8 @@ class SsbGraphMinimizer:
                     # Common end label
                     if len(v.out_edges()) < 2:
                         continue
+                    # The edges were just rebuilt, cached results may refer to edges that no longer exist.
+                    find_first_common_next_vertex_in_edges__clear_cache(g)
                     result = find_first_common_next_vertex_in_edges(g, v.out_edges())
                     if result is not None:
                         end_vertex = result[0].target_vertex
